@@ -1,6 +1,7 @@
 import Qhttp.Model.Copier
 import Qhttp.Lemmas.C14Run
 import Qhttp.Lemmas.C14Seq
+import Qhttp.Lemmas.C14Open
 /-
   C14 — the device copier delivers exactly the requested bytes and signals completion once.
 -/
@@ -68,6 +69,21 @@ def holds (c : Cfg) (evs : List Ev) (obs : List Obs) : Bool :=
    -- the completion stop() itself signals is the first `fin` of the tail
    Obs.countP isWrote tail == 0 && Obs.countP isFin tail ≤ 1)
 
+
+/-- a device that cannot be opened -/
+def openFault (c : Cfg) : Bool := c.srcOpenFails || c.dstOpenFails
+
+/-- "a failure to open either device signals an error followed by that single completion", for
+    every kind of source and whatever the source announces afterwards (arrivals, end of data,
+    timer turns): exactly one error, exactly one completion, the error first, nothing copied -/
+def holdsOpen (c : Cfg) (evs : List Ev) (obs : List Obs) : Bool :=
+  if openFault c && evs.head? == some .start && (evs.filter (· == .start)).length == 1 && !hasStop evs
+  then Obs.countP isErr obs == 1 && Obs.countP isFin obs == 1 && Obs.countP isWrote obs == 0 &&
+       Obs.countP isErr (obs.dropWhile (fun o => !isFin o)) == 0
+  else true
+
+/-- the predicate the driver evaluates -/
+def holdsAll (c : Cfg) (evs : List Ev) (obs : List Obs) : Bool := holds c evs obs && holdsOpen c evs obs
 
 /-! ## Theorems
 
@@ -628,5 +644,77 @@ example : shape cfgF [.start, .turn, .turn, .turn, .turn] = true ∧
 -- `shape` rejects what it should: a second start, two stops, eof in the middle of a sequential run
 example : shape cfgR [.start, .turn, .start] = false ∧ shape cfgR [.start, .stop, .stop] = false ∧
     shape cfgS [.start, .eof, .arrive [65]] = false ∧ shape cfgS [.start, .arrive [66]] = false := by decide
+
+/-! ### open failures (`holdsOpen`) -/
+
+theorem counts_idle_log (d : List Obs) (hd : d.all C14O.isEv = true) :
+    Obs.countP isErr ([Obs.ev 0, err, fin] ++ d) = 1 ∧ Obs.countP isFin ([Obs.ev 0, err, fin] ++ d) = 1 ∧
+    Obs.countP isWrote ([Obs.ev 0, err, fin] ++ d) = 0 ∧
+    Obs.countP isErr (([Obs.ev 0, err, fin] ++ d).dropWhile (fun o => !isFin o)) = 0 := by
+  have h0 : ∀ (p : Obs → Bool), (∀ k, p (Obs.ev k) = false) → (d.filter p).length = 0 := by
+    intro p hp
+    induction d with
+    | nil => rfl
+    | cons o d ih =>
+      simp only [List.all_cons, Bool.and_eq_true] at hd
+      cases o <;> simp_all [C14O.isEv]
+  have e1 := h0 isErr (fun _ => rfl)
+  have e2 := h0 isFin (fun _ => rfl)
+  have e3 := h0 isWrote (fun _ => rfl)
+  refine ⟨?_, ?_, ?_, ?_⟩
+  · simp [Obs.countP, List.filter_cons, isErr, err, fin, e1]
+  · simp [Obs.countP, List.filter_cons, isFin, err, fin, e2]
+  · simp [Obs.countP, List.filter_cons, isWrote, err, fin, e3]
+  · simp [Obs.countP, List.dropWhile, List.filter_cons, isFin, isErr, err, fin, e1]
+
+/-- **C14 (`holdsOpen_run`)**: for every configuration whose source or destination cannot be
+    opened and every event list — arrivals, end of data and timer turns in any number and order
+    after the `start` — the model signals exactly one error followed by exactly one completion and
+    copies nothing -/
+theorem holdsOpen_run (c : Cfg) (evs : List Ev) : holdsOpen c evs (run c evs).log = true := by
+  unfold holdsOpen
+  split
+  · rename_i h
+    simp only [Bool.and_eq_true, Bool.not_eq_true', beq_iff_eq] at h
+    obtain ⟨⟨⟨hf, hh⟩, hn⟩, hst⟩ := h
+    cases evs with
+    | nil => simp at hh
+    | cons e rest =>
+      simp only [List.head?_cons, Option.some.injEq] at hh
+      subst hh
+      have h1 : ∀ x ∈ rest, x ≠ Ev.start := by
+        intro x hx hxe
+        subst hxe
+        have : ((Ev.start :: rest).filter (· == Ev.start)).length ≥ 2 := by
+          have hm : Ev.start ∈ rest.filter (· == Ev.start) := List.mem_filter.2 ⟨hx, by simp⟩
+          have := List.length_pos_of_mem hm
+          simp [List.filter_cons]; omega
+        omega
+      have h2 : ∀ x ∈ rest, x ≠ Ev.stop := by
+        intro x hx hxe
+        subst hxe
+        have : hasStop (Ev.start :: rest) = true := by
+          simp only [hasStop, List.any_cons, List.any_eq_true, Bool.or_eq_true]
+          exact Or.inr ⟨Ev.stop, hx, by decide⟩
+        rw [this] at hst; cases hst
+      have hidle := C14O.run_idle c rest _ 1 (C14O.start_idle c hf) h1 h2
+      have hrun : (run c (Ev.start :: rest)).log = ((rest.foldl (stepK c) ((stepK c ({}, 0) .start).1, 1)).1).log := rfl
+      obtain ⟨_, _, d, hl, hd⟩ := hidle
+      rw [hrun, hl]
+      obtain ⟨a, b, c', d'⟩ := counts_idle_log d hd
+      rw [a, b, c', d']; rfl
+  · rfl
+
+/-- the open-failure clause is not vacuous: a sequential source whose destination cannot be
+    opened, with data and end-of-data announced afterwards -/
+example : openFault { src := [1, 2], seq := true, dstOpenFails := true } = true ∧
+    holdsOpen { src := [1, 2], seq := true, dstOpenFails := true } [.start, .arrive [1, 2], .turn, .eof]
+      [Obs.ev 0, err, fin, Obs.ev 1, err, Obs.ev 2, Obs.ev 3, fin] = false := by decide
+
+/-- **C14 (`holdsAll_run`)**: the predicate the driver evaluates holds on every run of the model
+    of the documented shape -/
+theorem holdsAll_run (c : Cfg) (evs : List Ev) (hs : shape c evs = true) :
+    holdsAll c evs (run c evs).log = true := by
+  simp [holdsAll, holds_run c evs hs, holdsOpen_run c evs]
 
 end Qhttp.C14
